@@ -1,23 +1,24 @@
 /-
   Rbgp.Enc.Model — hand-written model of the ENCODE side of packet/src/bgp.rs:
-  `PeerCodec::negotiate`, `Capability::encode`, the OPEN arm of `do_encode` with its `u8`
-  length arithmetic, `Attribute::encode`, the 2-byte-AS downgrade (`as_path_downgrade_2byte`,
+  `PeerCodec::negotiate`, `Capability::encode`, the OPEN arm of `do_encode` with its one-octet
+  length checks, `Attribute::encode`, the 2-byte-AS downgrade (`as_path_downgrade_2byte`,
   `as_path_has_wide_as`, `as_path_strip_confed`, `aggregator_downgrade_2byte`) with AS4_PATH /
   AS4_AGGREGATOR synthesis, `Ipv4Net::encode` / `Ipv6Net::encode`, `mp_reach_encode`,
-  `mp_unreach_encode` with their `max_len` reservations, the back-patched length fields of
-  `do_encode`, and the chunk loop of `PeerCodec::encode_to`.
+  `mp_unreach_encode`, `put_entries` (the "does one more entry fit" loop on actual encoded
+  lengths), the back-patched length fields of `do_encode`, and the chunk loop of
+  `PeerCodec::encode_to`.
 
   One Lean function per Rust function, same branch order.  Bytes are `List Nat` (each < 256).
-  Fixed-width arithmetic that the property is about (u8 capability lengths, u16 attribute /
-  MP lengths, the u16 header length) goes through `addU8/mulU8/addU16/subU16`, which panic in
-  the `debug` profile and wrap in `release`; `as u8` / `as u16` casts truncate in both.
-  Rust `unwrap()` on the wrong `AttributeData` variant and slice indexing out of range are
-  explicit `panic` outcomes.
+  Fixed-width arithmetic that the property is about (u16 attribute / MP lengths, the u16
+  header length) goes through `addU16/subU16`, which panic in the `debug` profile and wrap in
+  `release`; `as u8` / `as u16` casts truncate in both.  Rust `unwrap()` on the wrong
+  `AttributeData` variant and slice indexing out of range are explicit `panic` outcomes; an
+  `Err` return of `encode_to` (input refused, nothing written) is the `err` outcome.
 
   NLRI of families outside the phase-1 model (VPN, labeled, EVPN, flowspec, LS, MUP,
-  SR-policy, RTC) are `Nlri.opq`: their wire bytes (or the fact that the standalone encoder
-  panics) are a parameter supplied by the case (measured on the real code), so the framing /
-  chunking logic is still the modelled one.
+  SR-policy, RTC) are `Nlri.opq`: their wire bytes (or the fact that the encoder panics on /
+  refuses them) are a parameter supplied by the case (measured on the real code), so the
+  framing / chunking logic is still the modelled one.
 
   Import-free (core only).
 -/
@@ -29,35 +30,31 @@ inductive Profile where
   | debug | release
   deriving DecidableEq, Repr, Inhabited
 
-/-- Outcome of a Rust computation that may panic. -/
+/-- Outcome of a Rust computation that may panic or return `Err` (the encoder refuses its input). -/
 inductive Out (α : Type) where
   | ok (a : α)
   | panic
+  | err
   deriving Repr, Inhabited, DecidableEq
 
 namespace Out
 @[inline] def bind {α β} : Out α → (α → Out β) → Out β
   | ok a, f => f a
   | panic, _ => panic
+  | err, _ => err
 instance : Monad Out where
   pure := Out.ok
   bind := Out.bind
 @[simp] theorem bind_ok {α β} (a : α) (f : α → Out β) : (Out.ok a >>= f) = f a := rfl
 @[simp] theorem bind_panic {α β} (f : α → Out β) : ((Out.panic : Out α) >>= f) = Out.panic := rfl
+@[simp] theorem bind_err {α β} (f : α → Out β) : ((Out.err : Out α) >>= f) = Out.err := rfl
 @[simp] theorem pure_eq {α} (a : α) : (pure a : Out α) = Out.ok a := rfl
+/-- the value, or `d` when there is none -/
+def getD {α} (o : Out α) (d : α) : α := match o with | ok a => a | _ => d
+@[simp] theorem getD_ok {α} (a d : α) : (Out.ok a).getD d = a := rfl
 end Out
 
 /-! ### fixed-width arithmetic -/
-
-def addU8 (p : Profile) (a b : Nat) : Out Nat :=
-  if a + b < 256 then .ok (a + b) else match p with
-    | .debug => .panic
-    | .release => .ok ((a + b) % 256)
-
-def mulU8 (p : Profile) (a b : Nat) : Out Nat :=
-  if a * b < 256 then .ok (a * b) else match p with
-    | .debug => .panic
-    | .release => .ok ((a * b) % 256)
 
 def addU16 (p : Profile) (a b : Nat) : Out Nat :=
   if a + b < 65536 then .ok (a + b) else match p with
@@ -132,8 +129,9 @@ inductive ODec where
 inductive Nlri where
   /-- IPv4 (`v6 = false`, 4 address bytes) or IPv6 (`v6 = true`, 16 address bytes) prefix -/
   | ip (v6 : Bool) (addr : Bytes) (mask : Nat)
-  /-- NLRI of a family outside the model: standalone wire bytes (`none` = encoder panics) + decode probe -/
-  | opq (enc : Option Bytes) (dec : ODec)
+  /-- NLRI of a family outside the model: its wire bytes as measured on the real encoder (or panic / `Err`)
+      + decode probe -/
+  | opq (enc : Out Bytes) (dec : ODec)
   deriving DecidableEq, Repr, Inhabited
 
 structure Entry where
@@ -232,43 +230,35 @@ def capCode : Cap → Nat
   | .mp _ => 1 | .rr => 2 | .enh _ => 5 | .em => 6 | .gr .. => 64 | .as4 _ => 65
   | .ap _ => 69 | .err => 70 | .llgr _ => 71 | .fqdn .. => 73 | .unk c _ => c
 
-/-- Returns the bytes written and the `u8` return value `(len) as u8`. -/
-def Cap.encode (p : Profile) (c : Cap) : Out (Bytes × Nat) := do
-  let body : Bytes ← (match c with
-    | .mp f => pure ([4] ++ be16 f.afi ++ [0, f.safi])
-    | .rr => pure [0]
-    | .enh v => do
-        let l ← mulU8 p (v.length % 256) 6
-        pure ([l] ++ v.flatMap (fun fa => fa.1.u32 ++ be16 fa.2))
-    | .gr flags time fams => do
-        let l ← mulU8 p (fams.length % 256) 4
-        let l ← addU8 p l 2
-        pure ([l] ++ be16 (Nat.lor (flags * 4096 % 65536) time)
-              ++ fams.flatMap (fun ff => be16 ff.1.afi ++ [ff.1.safi, ff.2]))
-    | .as4 n => pure ([4] ++ be32 n)
-    | .ap v => do
-        let l ← mulU8 p (v.length % 256) 4
-        pure ([l] ++ v.flatMap (fun fm => be16 fm.1.afi ++ [fm.1.safi, fm.2]))
-    | .em => pure [0]
-    | .err => pure [0]
-    | .llgr v => do
-        let l ← mulU8 p (v.length % 256) 7
-        pure ([l] ++ v.flatMap (fun x =>
-          be16 x.1.afi ++ [x.1.safi, x.2.1, x.2.2 / 65536 % 256, x.2.2 / 256 % 256, x.2.2 % 256]))
+/-- Returns the bytes written and their number; `Err` when they exceed code + length + 255 octets.
+    The length octet is computed in `usize` and cast (`(v.len() * 6) as u8`): no overflow check in either profile. -/
+def Cap.encode (c : Cap) : Out (Bytes × Nat) :=
+  let body : Bytes := (match c with
+    | .mp f => [4] ++ be16 f.afi ++ [0, f.safi]
+    | .rr => [0]
+    | .enh v => [v.length * 6 % 256] ++ v.flatMap (fun fa => fa.1.u32 ++ be16 fa.2)
+    | .gr flags time fams =>
+        [(fams.length * 4 + 2) % 256] ++ be16 (Nat.lor (flags * 4096 % 65536) time)
+          ++ fams.flatMap (fun ff => be16 ff.1.afi ++ [ff.1.safi, ff.2])
+    | .as4 n => [4] ++ be32 n
+    | .ap v => [v.length * 4 % 256] ++ v.flatMap (fun fm => be16 fm.1.afi ++ [fm.1.safi, fm.2])
+    | .em => [0]
+    | .err => [0]
+    | .llgr v =>
+        [v.length * 7 % 256] ++ v.flatMap (fun x =>
+          be16 x.1.afi ++ [x.1.safi, x.2.1, x.2.2 / 65536 % 256, x.2.2 / 256 % 256, x.2.2 % 256])
     | .fqdn h d =>
-        pure ([(2 + h.length + d.length) % 256, h.length % 256] ++ h.map lower
-              ++ [d.length % 256] ++ d.map lower)
-    | .unk _ bin => pure ([bin.length % 256] ++ bin) : Out Bytes)
+        [(2 + h.length + d.length) % 256, h.length % 256] ++ h.map lower ++ [d.length % 256] ++ d.map lower
+    | .unk _ bin => [bin.length % 256] ++ bin)
   let bytes := capCode c :: body
-  pure (bytes, bytes.length % 256)
+  if bytes.length > 257 then .err else .ok (bytes, bytes.length)
 
-/-- the capability loop of the OPEN arm: `cap_len += cap.encode(dst).unwrap()` on `u8` -/
-def encodeCaps (p : Profile) : List Cap → Nat → Out (Bytes × Nat)
+/-- the capability loop of the OPEN arm: `cap_len += cap.encode(dst)?` on `usize` -/
+def encodeCaps : List Cap → Nat → Out (Bytes × Nat)
   | [], acc => pure ([], acc)
   | c :: rest, acc => do
-      let (b, l) ← c.encode p
-      let acc ← addU8 p acc l
-      let (bs, tot) ← encodeCaps p rest acc
+      let (b, l) ← c.encode
+      let (bs, tot) ← encodeCaps rest (acc + l)
       pure (b ++ bs, tot)
 
 /-! ### AS_PATH helpers (segment view of the byte-level walkers) -/
@@ -366,7 +356,7 @@ def encodeOneAttr (twoByte : Bool) (a : Attr) : Out (List (Bytes × Nat)) :=
     | none => .panic
     | some bin => do
         let down ← asPathDowngrade bin
-        let r1 ← (Attr.mk 2 64 (.bin down)).encode
+        let r1 ← (Attr.mk 2 a.flags (.bin down)).encode      -- `a.with_bin(..)`: the stored flags are kept
         if asPathHasWide bin then do
           let r2 ← (Attr.mk 17 192 (.bin (asPathStripConfed bin))).encode
           pure [r1, r2]
@@ -379,7 +369,7 @@ def encodeOneAttr (twoByte : Bool) (a : Attr) : Out (List (Bytes × Nat)) :=
         else do
           let asn := beNat (bin.take 4)
           let as2 := if asn > 65535 then TRANS_ASN else asn
-          let r1 ← (Attr.mk 7 192 (.bin (be16 as2 ++ (bin.drop 4).take 4))).encode
+          let r1 ← (Attr.mk 7 a.flags (.bin (be16 as2 ++ (bin.drop 4).take 4))).encode
           if asn > 65535 then do
             let r2 ← (Attr.mk 18 192 (.bin bin)).encode
             pure [r1, r2]
@@ -388,31 +378,29 @@ def encodeOneAttr (twoByte : Bool) (a : Attr) : Out (List (Bytes × Nat)) :=
     let r ← a.encode
     pure [r]
 
-/-- `attr_len += x.encode_wire(dst)` for each wire attribute written for one input attribute -/
-def addLens (p : Profile) : Nat → List (Bytes × Nat) → Out Nat
-  | acc, [] => pure acc
-  | acc, r :: rs => do
-      let acc ← addU16 p acc r.2
-      addLens p acc rs
+/-- `attr_len += x.encode_wire(dst)` (on `usize`) for each wire attribute written for one input attribute -/
+def addLens : Nat → List (Bytes × Nat) → Nat
+  | acc, [] => acc
+  | acc, r :: rs => addLens (acc + r.2) rs
 
-/-- The attribute loop: bytes written and the running `attr_len: u16`. -/
+/-- The attribute loop: bytes written and the running `attr_len: usize`.  (`p` is kept for uniformity: the
+    loop has no profile-dependent arithmetic any more.) -/
 def encodeAttrs (p : Profile) (twoByte : Bool) : List Attr → Nat → Out (Bytes × Nat)
   | [], acc => pure ([], acc)
   | a :: rest, acc => do
       let rs ← encodeOneAttr twoByte a
-      let acc ← addLens p acc rs
-      let (bs, tot) ← encodeAttrs p twoByte rest acc
+      let (bs, tot) ← encodeAttrs p twoByte rest (addLens acc rs)
       pure (rs.flatMap (·.1) ++ bs, tot)
 
 /-! ### NLRI -/
 
 def ceil8 (n : Nat) : Nat := (n + 7) / 8
 
-/-- `Nlri::encode`; `none` = the (opaque family's) encoder panics. -/
-def Nlri.encode : Nlri → Option Bytes
+/-- `Nlri::encode` / `Nlri::encode_withdrawn` (an opaque family's probe is taken in the direction it is used). -/
+def Nlri.encode : Nlri → Out Bytes
   | .ip _ addr mask =>
       -- `self.addr.octets()[i]` for `i < mask.div_ceil(8)` indexes out of range when the mask is too long
-      if ceil8 mask ≤ addr.length then some (mask :: addr.take (ceil8 mask)) else none
+      if ceil8 mask ≤ addr.length then .ok (mask :: addr.take (ceil8 mask)) else .panic
   | .opq enc _ => enc
 
 def Nh.bytes : Nh → Bytes
@@ -425,27 +413,40 @@ def Nh.v4? : Nh → Option Bytes
   | .v4 a => some a
   | _ => none
 
-/-- The shared "does one more entry fit" loop of `do_encode` / `mp_*_encode`:
-    `if buf_head + max_message_length > dst.len() + max_len { put; n += 1 } else break`.
+/-- The loop of `put_entries`: each entry (path id + NLRI) is encoded on its own and appended if the frame, with
+    `tail` more octets to follow, stays within `max`; the loop ends at the first entry that does not fit.
     `cur` = bytes of the current frame written so far. -/
-def fitLoop (max maxLen : Nat) (addpath : Bool) : Nat → List Entry → Out (Bytes × Nat)
+def fitLoop (max tail : Nat) (addpath : Bool) : Nat → List Entry → Out (Bytes × Nat)
   | _, [] => pure ([], 0)
   | cur, e :: es =>
-      if max > cur + maxLen then
-        match e.nlri.encode with
-        | none => .panic
-        | some nb => do
-            let b := (if addpath then be32 e.pid else []) ++ nb
-            let (bs, n) ← fitLoop max maxLen addpath (cur + b.length) es
+      match e.nlri.encode with
+      | .panic => .panic
+      | .err => .err
+      | .ok nb =>
+          let b := (if addpath then be32 e.pid else []) ++ nb
+          if cur + b.length + tail ≤ max then do
+            let (bs, n) ← fitLoop max tail addpath (cur + b.length) es
             pure (b ++ bs, n + 1)
-      else pure ([], 0)
+          else pure ([], 0)
+
+/-- `put_entries`: not even the first entry fits ⇒ `Err` (no frame without progress is emitted). -/
+def putEntries (max tail : Nat) (addpath : Bool) (cur : Nat) (es : List Entry) : Out (Bytes × Nat) := do
+  let (nb, n) ← fitLoop max tail addpath cur es
+  if n = 0 ∧ !es.isEmpty then .err else pure (nb, n)
 
 def isFlowspec (f : Fam) : Bool := (f.afi = 1 ∨ f.afi = 2) ∧ (f.safi = 133 ∨ f.safi = 134)
 def isVpn (f : Fam) : Bool := (f.afi = 1 ∨ f.afi = 2) ∧ f.safi = 128
 /-- SR-policy, multicast, EVPN: next hop written as is -/
 def nhAsIs (f : Fam) : Bool :=
   ((f.afi = 1 ∨ f.afi = 2) ∧ (f.safi = 73 ∨ f.safi = 2)) ∨ (f.afi = 25 ∧ f.safi = 70)
-def isEvpn (f : Fam) : Bool := f.afi = 25 ∧ f.safi = 70
+
+/-- VPN next hop: an 8-byte zero RD before each 16-byte (or shorter) address, `nh_bytes.chunks(16)` -/
+def vpnNh (nhb : Bytes) : Bytes :=
+  if h : nhb.length = 0 then []
+  else if nhb.length ≤ 16 then List.replicate 8 0 ++ nhb
+  else List.replicate 8 0 ++ nhb.take 16 ++ vpnNh (nhb.drop 16)
+termination_by nhb.length
+decreasing_by simp [List.length_drop]; omega
 
 /-- `mp_reach_encode`: `cur` = frame bytes before the attribute.  Returns attribute bytes, `mp_len: u16`, count. -/
 def mpReachEncode (p : Profile) (c : Codec) (cur : Nat) (f : Fam) (es : List Entry) (nh : Option Nh) :
@@ -453,14 +454,12 @@ def mpReachEncode (p : Profile) (c : Codec) (cur : Nat) (f : Fam) (es : List Ent
   let nhb : Bytes := match nh with | some n => n.bytes | none => []
   let nhPart : Bytes :=
     if isFlowspec f then [0]
-    else if isVpn f then [(8 + nhb.length) % 256] ++ List.replicate 8 0 ++ nhb
+    else if isVpn f then [(vpnNh nhb).length % 256] ++ vpnNh nhb
     else if nhb.length < 16 ∧ !nhAsIs f then [16] ++ nhb ++ List.replicate (16 - nhb.length) 0
     else [nhb.length % 256] ++ nhb
-  -- (`8 + nh_bytes.len() as u8` cannot overflow: a next hop has at most 32 bytes)
   let head : Bytes := be16 f.afi ++ [f.safi] ++ nhPart ++ [0]
   let addpath := c.addpathTx f
-  let maxLen := (if isEvpn f then 60 else 17) + (if addpath then 4 else 0)
-  let (nb, n) ← fitLoop c.maxLen maxLen addpath (cur + 4 + head.length) es
+  let (nb, n) ← putEntries c.maxLen 0 addpath (cur + 4 + head.length) es
   let mpLen := (4 + head.length + nb.length) % 65536
   let inner ← subU16 p mpLen 4
   pure ([144, 14] ++ be16 inner ++ head ++ nb, mpLen, n)
@@ -470,8 +469,7 @@ def mpUnreachEncode (p : Profile) (c : Codec) (cur : Nat) (f : Fam) (es : List E
     Out (Bytes × Nat × Nat) := do
   let head : Bytes := be16 f.afi ++ [f.safi]
   let addpath := c.addpathTx f
-  let maxLen := 17 + (if addpath then 4 else 0)
-  let (nb, n) ← fitLoop c.maxLen maxLen addpath (cur + 4 + head.length) es
+  let (nb, n) ← putEntries c.maxLen 0 addpath (cur + 4 + head.length) es
   let mpLen := (4 + head.length + nb.length) % 65536
   let inner ← subU16 p mpLen 4
   pure ([144, 15] ++ be16 inner ++ head ++ nb, mpLen, n)
@@ -501,17 +499,19 @@ def marker : Bytes := List.replicate 16 255
 def frame (ty : Nat) (body : Bytes) : Bytes :=
   marker ++ be16 ((19 + body.length) % 65536) ++ [ty] ++ body
 
-/-- One wire message for `es` = `entries[start..]`.  Returns the frame and `n_encoded`. -/
-def doEncode (p : Profile) (c : Codec) (m : Msg) (es : List Entry) : Out (Bytes × Nat) :=
+/-- One wire message for `es` = `entries[start..]` (before the final size check).  Returns the frame and
+    `n_encoded`. -/
+def doEncodeBody (p : Profile) (c : Codec) (m : Msg) (es : List Entry) : Out (Bytes × Nat) :=
   match m with
   | .open asn hold rid caps => do
       let trans := if asn > 65535 then TRANS_ASN else asn
       let fixed : Bytes := [4] ++ be16 trans ++ be16 hold ++ be32 rid
       if caps.isEmpty then pure (frame 1 (fixed ++ [0]), 0)
       else do
-        let (cb, capLen) ← encodeCaps p caps 0
-        let opLen ← addU8 p capLen 2
-        pure (frame 1 (fixed ++ [opLen, 2, capLen] ++ cb), 0)
+        let (cb, capLen) ← encodeCaps caps 0
+        -- both the parameter and the parameter block have a one-octet length
+        if capLen + 2 > 255 then .err
+        else pure (frame 1 (fixed ++ [capLen + 2, 2, capLen] ++ cb), 0)
   | .reach f nh attrs _ => do
       let addpath := c.addpathTx f
       let (ab, attrLen) ← encodeAttrs p c.twoByte attrs 0
@@ -525,23 +525,19 @@ def doEncode (p : Profile) (c : Codec) (m : Msg) (es : List Entry) : Out (Bytes 
                 pure (some r) : Out (Option (Bytes × Nat)))
         let (ab, attrLen) ← (match nhAttr with
           | none => pure (ab, attrLen)
-          | some r => do
-              let l ← addU16 p attrLen r.2
-              pure (ab ++ r.1, l) : Out (Bytes × Nat))
-        let maxLen := 5 + (if addpath then 4 else 0)
-        let (nb, n) ← fitLoop c.maxLen maxLen addpath (23 + ab.length) es
+          | some r => pure (ab ++ r.1, attrLen + r.2) : Out (Bytes × Nat))
+        let (nb, n) ← putEntries c.maxLen 0 addpath (23 + ab.length) es
         pure (frame 2 ([0, 0] ++ be16 attrLen ++ ab ++ nb), n)
       else do
         let (mb, mpLen, n) ← mpReachEncode p c (23 + ab.length) f es nh
-        let attrLen ← addU16 p attrLen mpLen
-        pure (frame 2 ([0, 0] ++ be16 attrLen ++ ab ++ mb), n)
+        -- `attr_len as u16`: `be16` keeps the low 16 bits
+        pure (frame 2 ([0, 0] ++ be16 (attrLen + mpLen) ++ ab ++ mb), n)
   | .unreach f _ => do
       let addpath := c.addpathTx f
       if f = Fam.ipv4 ∧ !c.extNh then do
-        -- `5 + 2 +`: the Total Path Attribute Length field written after the loop is reserved too
-        let maxLen := 5 + 2 + (if addpath then 4 else 0)
-        let (nb, n) ← fitLoop c.maxLen maxLen addpath 21 es
-        -- `withdrawn_len: u16 +=` cannot overflow: the loop keeps `dst.len() - pos_head < max ≤ 65535`
+        -- tail 2: the Total Path Attribute Length field written after the routes
+        let (nb, n) ← putEntries c.maxLen 2 addpath 21 es
+        -- `withdrawn_len as u16` cannot truncate: the loop keeps `dst.len() - pos_head ≤ max ≤ 65535`
         pure (frame 2 (be16 (nb.length % 65536) ++ nb ++ [0, 0]), n)
       else do
         let (mb, mpLen, n) ← mpUnreachEncode p c 23 f es
@@ -554,9 +550,18 @@ def doEncode (p : Profile) (c : Codec) (m : Msg) (es : List Entry) : Out (Bytes 
       else pure (frame 2 [0, 0, 0, 0], 0)
   | .notif code sub data =>
       let t := notifCanon code sub data
-      pure (frame 3 ([t.1, t.2.1] ++ t.2.2), 0)
+      -- the data is cut to what fits the message size limit
+      pure (frame 3 ([t.1, t.2.1] ++ t.2.2.take (c.maxLen - 21)), 0)
   | .keepalive => pure (frame 4 [], 0)
   | .rr f => pure (frame 5 f.u32, 0)
+
+/-- `do_encode`: a message longer than the size limit is refused (`pos_end - pos_head > max_message_length()`),
+    before the header length is written. -/
+def doEncode (p : Profile) (c : Codec) (m : Msg) (es : List Entry) : Out (Bytes × Nat) :=
+  match doEncodeBody p c m es with
+  | .ok (fr, n) => if fr.length > c.maxLen then .err else .ok (fr, n)
+  | .panic => .panic
+  | .err => .err
 
 def Msg.entries : Msg → List Entry
   | .reach _ _ _ es => es
@@ -571,20 +576,24 @@ def encodeLoop (p : Profile) (c : Codec) (m : Msg) (es : List Entry) : Out (List
   | e :: rest =>
       match doEncode p c m (e :: rest) with
       | .panic => .panic
+      | .err => .err
       | .ok (fr, n) =>
           if _h : n = 0 then .ok [(fr, 0)]          -- `if end <= start { break }`
           else match encodeLoop p c m ((e :: rest).drop n) with
             | .panic => .panic
+            | .err => .err
             | .ok r => .ok ((fr, n) :: r)
 termination_by es.length
 decreasing_by simp [List.length_drop]; omega
 
-/-- `PeerCodec::encode_to`: the frames written, each with the number of entries it carries. -/
+/-- `PeerCodec::encode_to`: the frames written, each with the number of entries it carries (on `Err` nothing is
+    appended to the caller's buffer: the frames are collected in a scratch buffer first). -/
 def encodeTo (p : Profile) (c : Codec) (m : Msg) : Out (List (Bytes × Nat)) :=
   match m.entries with
   | [] =>
       match doEncode p c m [] with
       | .panic => .panic
+      | .err => .err
       | .ok (fr, _) => .ok [(fr, 0)]
   | e :: es => encodeLoop p c m (e :: es)
 
